@@ -36,6 +36,8 @@ def listing(module):
 def describe(module):
     return dict(listing=listing(module), functions=list(module.Functions.keys()), globals=[(k, str(v)) for k, v in module.Globals.items()],
                 imports=sorted(module.Imports), metadata_keys=sorted(module.Metadata.keys()),
+                constants={name: sorted((c.Reference, str(c.Type), type(c.Value).__name__, repr(c.Value)) for c in f.Constants) for name, f in module.Functions.items()},
+                blocks={name: [(b.Reference, len(b.Instructions)) for b in f.BasicBlocks] for name, f in module.Functions.items()},
                 metadata_functions=sorted(str(f.GetName()) for f in module.Metadata.get("functions", [])))
 
 
